@@ -77,7 +77,9 @@ def strategy(tier):
 
     ssbs = st.fixed_dictionaries({"kind": st.just("ssbs"), "src": c03.ssbs_programs(), "cut": st.one_of(st.none(), st.integers(0, 4000)),
                                   "junk": st.one_of(st.none(), st.tuples(st.integers(0, 4000), st.sampled_from(ALPHA)).map(list))})
-    return st.one_of(valid, corrupt, corrupt, inject, inject, inject, degenerate, text, ssbs)
+    from vf.core import weighted
+
+    return weighted((1, valid), (2, corrupt), (3, inject), (1, degenerate), (1, text), (1, ssbs))
 
 
 def corrupt_tokens(r, ops):
